@@ -205,3 +205,33 @@ CHECKS["C03"] = {
     "outside": ["JSON grammar; what exactly encoding/json accepts as a duplicate key (no relation between decoding the body and decoding its member is assumed)"],
     "assumptions": PKI_ASSUME + ["encoding/json.Unmarshal is a deterministic function of (document, target type)", "url.QueryUnescape / hex.DecodeString deterministic functions of the string"],
 }
+
+CHECKS["C05"] = {
+    "groups": ["pki", "c05"],
+    "quick": {"match": "^H05", "budget": 900},
+    "thorough": {"match": "^[HT]05", "budget": 3000, "query_timeout_ms": 120000},
+    "replay": "model",
+    "what": "verify.TdxQuote with GetCollateral and CheckRevocations (obtainCollateral, getPckCrl, getRootCrl, bodyToCrl, validateCRL, the revocation "
+            "parts of verifyPCKCertificationChain and verifyResponse, verifyCollateral) with CRLs of 0..3 revoked serials (symbolic), symbolic CRL "
+            "issuer names and signers, 0..3 root-CRL distribution points each answering ok / error / garbage; asserted: accept implies both CRLs "
+            "obtained, CrlSigBy(root CRL, chain root) and for the collateral issuer roots, CrlSigBy(PCK CRL, intermediate), issuer names match, leaf "
+            "serial not in the PCK CRL, intermediate / TCB-Info signer / QE-Identity signer serials not in the Root CA CRL; revocation without "
+            "collateral always fails and fetches nothing",
+    "bounds": {"revoked_entries_per_crl": "0..1 quick, 0..3 thorough", "distribution_points": "0..2 quick, 3 thorough", "serials": "64-bit symbolic"},
+    "outside": ["serial numbers wider than 64 bits", "CRL parsing itself (contract stub)"],
+    "assumptions": PKI_ASSUME + ["RevocationList.CheckSignatureFrom nil iff CrlSigBy(crl, parent key)", "big.Int.Cmp compares the serial values"],
+}
+
+CHECKS["C06"] = {
+    "groups": ["pki", "c06"],
+    "quick": {"match": "^H06", "budget": 900},
+    "thorough": {"match": "^[HT]06", "budget": 3000, "query_timeout_ms": 120000},
+    "replay": "model",
+    "what": "verify.TdxQuote at the three option levels with five symbolic verification instants (unconstrained relative to each other), symbolic "
+            "NotBefore/NotAfter of all nine certificate roles and symbolic nextUpdate of both documents and both CRLs; asserted: accept implies each "
+            "artifact is not past its limit at ITS OWN time-set entry and path elements are inside their validity window; also with Options.Now nil "
+            "(time.Now stubbed by a symbolic wall clock)",
+    "bounds": {"times": "0..2^40 s, all symbolic"},
+    "outside": ["wall-clock reads between the five time.Now() calls of defaultTimeSet are one instant in the model"],
+    "assumptions": PKI_ASSUME + ["time.Time.After/Before/Equal executed for real (merged)"],
+}
